@@ -605,6 +605,57 @@ def r7_decorated_statement_starts(ctx):
                '(they run without the definition, and a directive in front of it changes scope)' % restr, anchor=q)
 
 
+    # R7b: one start per statement -- the statement's own line is used only when it has no decorators
+    rd = ctx.rd(f)
+    stmt_vars = set()
+    for x in ast.walk(f.node):
+        if isinstance(x, (ast.For, ast.comprehension)) and isinstance(x.iter, ast.Name) and x.iter.id == 'statement_nodes' and isinstance(x.target, ast.Name):
+            stmt_vars.add(x.target.id)
+    for n in g.nodes:
+        if n.kind not in ('stmt', 'test') or n.dup or not isinstance(n.ast, ast.AST):
+            continue
+        for x in ast.walk(n.ast):
+            if not (isinstance(x, ast.Attribute) and x.attr == 'lineno' and isinstance(x.value, ast.Name) and x.value.id in stmt_vars):
+                continue
+            # the binding of that name at this site: nearest enclosing comprehension / for loop with this target
+            binder_iter = None
+            cur = x
+            while cur is not None and binder_iter is None:
+                cur = getattr(cur, '_parent', None)
+                if isinstance(cur, (ast.ListComp, ast.GeneratorExp, ast.SetComp, ast.DictComp)):
+                    for gen in cur.generators:
+                        if is_name(gen.target, x.value.id):
+                            binder_iter = gen.iter
+                elif isinstance(cur, ast.For) and is_name(cur.target, x.value.id):
+                    binder_iter = cur.iter
+            if not is_name(binder_iter, 'statement_nodes'):
+                continue
+            # a dead store (overwritten before any use) does not count
+            if isinstance(n.ast, ast.Assign) and isinstance(n.ast.targets[0], ast.Name):
+                v = n.ast.targets[0].id
+                mine = [d for d in rd.defs_of(v) if d.node is n]
+                used = any(any(d in rd.at(m, v) for d in mine) for m in g.nodes if m is not n and m.kind in ('stmt', 'test', 'for_init') and isinstance(m.ast, ast.AST) and
+                           any(isinstance(y, ast.Name) and y.id == v and isinstance(y.ctx, ast.Load) for y in ast.walk(m.ast)))
+                if not used:
+                    continue
+            loopf = [fr for fr in n.frames if fr.kind == 'loop']
+            d2 = ctx.dom(g, *graph.region_of_loop(g, loopf[-1].head)) if loopf else dom
+            facts = list(graph.guard_facts(d2, n)) + graph.short_circuit_facts(n.ast, x)
+            cur = x
+            while cur is not None and cur is not n.ast:
+                cur = getattr(cur, '_parent', None)
+                if isinstance(cur, (ast.ListComp, ast.GeneratorExp, ast.SetComp)):
+                    for gen in cur.generators:
+                        for cond in gen.ifs:
+                            facts += graph.facts_of(cond, True)
+            undecorated = any(fa.polarity is False and isinstance(fa.expr, ast.AST) and 'decorator_list' in fa.text for fa in facts) or \
+                any(fa.polarity is True and isinstance(fa.expr, ast.AST) and 'decorator_list' in fa.text and isinstance(fa.expr, ast.UnaryOp) for fa in facts)
+            rep.ob('C01.R7', ctx.loc(f, x), 'own line of a statement: ' + ctx.src(n.ast, 90), undecorated,
+                   'used only for statements without decorators' if undecorated else
+                   'the own line of EVERY statement is a statement start, also when it has decorators: a decorated definition contributes two starts, so a directive break can fall '
+                   'between the decorator and the `def` (the decorator line ends the previous part / the definition runs undecorated)', anchor=q)
+
+
 def enclosing_stmt_text(n, x):
     return n.ast
 
@@ -864,6 +915,7 @@ DE = 'xdoctest/doctest_example.py'
 PA = 'xdoctest/parser.py'
 US = 'xdoctest/utils/util_stream.py'
 VARIANTS = [
+    fire('decorator-line-added-not-replacing', 'C01.R7', (PA, "                else:\n                    lineno = node.lineno - 1\n                ps1_linenos.append(lineno)\n", "                    ps1_linenos.append(lineno)\n                lineno = node.lineno - 1\n                ps1_linenos.append(lineno)\n")),
     fire('exit-skips-log-on-error', 'C01.R3b', (US, "    def __exit__(self, type_, value, trace):\n        if self.enabled:\n", "    def __exit__(self, type_, value, trace):\n        if trace is not None:\n            self.stop()\n            return False\n        if self.enabled:\n")),
     fire('read-position-not-advanced', 'C01.R3b', (US, "        self._pos = self.cap_stdout.tell()\n", "")),
     fire('log-reads-from-start', 'C01.R3b', (US, "        self.cap_stdout.seek(self._pos)\n", "        self.cap_stdout.seek(0)\n")),
